@@ -115,6 +115,41 @@ func c05NilResults(ctx *core.Ctx, r *RT) {
 		}
 		return false
 	}
+	// calleeTests: the use hands the value to a function of the package that
+	// tests the corresponding parameter against nil before every use of it
+	// (the guard moved into the callee).
+	calleeTests := func(use ssa.Instruction, v ssa.Value) bool {
+		c, ok := use.(*ssa.Call)
+		if !ok {
+			return false
+		}
+		g := c.Call.StaticCallee()
+		if g == nil || g.Pkg != r.Pkg || len(g.Blocks) == 0 {
+			return false
+		}
+		found := false
+		for i, a := range c.Call.Args {
+			if ssax.Strip(a) != ssax.Strip(v) {
+				continue
+			}
+			if i >= len(g.Params) || g.Params[i].Referrers() == nil {
+				return false
+			}
+			found = true
+			for _, w := range *g.Params[i].Referrers() {
+				if _, isDbg := w.(*ssa.DebugRef); isDbg {
+					continue
+				}
+				if bo, ok := w.(*ssa.BinOp); ok && (bo.Op == token.EQL || bo.Op == token.NEQ) {
+					continue
+				}
+				if !nonNilAt(g.Params[i], w) {
+					return false
+				}
+			}
+		}
+		return found
+	}
 	for round := 0; round < 4; round++ {
 		collect()
 		grew := false
@@ -183,7 +218,7 @@ func c05NilResults(ctx *core.Ctx, r *RT) {
 					continue // propagated: the caller is itself in the producer set
 				}
 				nuse++
-				if !nonNilAt(e, w) {
+				if !nonNilAt(e, w) && !calleeTests(w, e) {
 					bad = r.IPos(w) + ": " + w.String()
 				}
 			}
